@@ -60,6 +60,25 @@ def instances(tier):
                 [np.diag([0.25, 0.25, 0.25, 0.25]) + 0.125 * (np.eye(4, k=3) + np.eye(4, k=-3)),
                  np.diag([0.5, 0.25, 0.25, 0]) + 0.125j * (np.eye(4, k=1) - np.eye(4, k=-1))], None, [2, 2]))
     if tier == "thorough":
+        import os
+        rng = np.random.default_rng(1200 + int(os.environ.get("VERIF_SEED", "0") or 0))
+        for t in range(24):
+            dims = [[2, 2], [2, 3], [3, 2]][t % 3]
+            N = dims[0] * dims[1]
+            n = 2 + (t % 2)
+            vs = []
+            for _ in range(n):
+                v = (rng.integers(-2, 3, size=(N, 1)) + 1j * rng.integers(-2, 3, size=(N, 1))) / 2.0
+                if not np.any(v):
+                    v[0, 0] = 1.0
+                vs.append(v)
+            if t % 6 == 3 and np.any(vs[0].real):
+                vs[0] = np.ascontiguousarray(vs[0].real, dtype=float)          # real first array
+            if t % 4 == 1:
+                vs = [v @ v.conj().T for v in vs]                              # density-matrix form
+            w = [0.5, 0.5] if n == 2 else [0.5, 0.25, 0.25]
+            rng.shuffle(w)
+            fam.append((f"seeded dyadic ensemble #{t} (n={n}, dims={dims})", vs, None if t % 5 == 0 else list(w), dims))
         fam.append(("4 complex 2x2 kets", [np.array([[1], [0], [0], [1j]]), np.array([[1], [0], [0], [-1j]]), np.array([[0], [1], [0.5], [0]]), np.array([[0], [0.5j], [1], [0]])], None, [2, 2]))
     return fam
 
